@@ -1171,6 +1171,13 @@ func Run(c *ev.Ctx) int {
 			w.run()
 		}()
 	}
+	for _, sc := range []bool{false, true} {
+		wg.Add(1)
+		go func(sc bool) {
+			defer wg.Done()
+			aliasedNameLane(c, sc)
+		}(sc)
+	}
 	for _, cc := range []string{"cache-default", "cache-disabled"} {
 		wg.Add(1)
 		go func(cc string) {
